@@ -14,7 +14,7 @@ use dvb_gse_rust::gse_encap::{ContextFrag, EncapMetadata, EncapStatus, Encapsula
 use dvb_gse_rust::header_extension::Extension;
 use dvb_gse_rust::label::Label;
 
-pub const LABELS: [Label; 8] = [
+pub const LABELS: [Label; 9] = [
     Label::SixBytesLabel([0xA6, 1, 2, 3, 4, 5]),
     Label::SixBytesLabel([0xB6, 1, 2, 3, 4, 5]),
     Label::ThreeBytesLabel([0xC3, 1, 2]),
@@ -24,8 +24,15 @@ pub const LABELS: [Label; 8] = [
     Label::SixBytesLabel([0, 0, 0, 0, 0, 0]),
     // a 6-byte label with the same numeric value as the 3-byte label C3
     Label::SixBytesLabel([0, 0, 0, 0xC3, 1, 2]),
+    // a 6-byte label that shares its first three bytes with A6
+    Label::SixBytesLabel([0xA6, 1, 2, 9, 9, 9]),
 ];
-pub const LABEL_NAMES: [&str; 8] = ["A6", "B6", "C3", "D3", "bc", "ru", "z6", "E6"];
+pub const LABEL_NAMES: [&str; 9] = ["A6", "B6", "C3", "D3", "bc", "ru", "z6", "E6", "F6"];
+
+/// label identity by kind and bytes (never through the crate's own `PartialEq for Label`)
+pub fn same_label(a: &Label, b: &Label) -> bool {
+    lt_of_label(a) == lt_of_label(b) && label_bytes(a) == label_bytes(b)
+}
 
 #[derive(Clone, Copy, Debug, PartialEq, Eq)]
 pub enum Outcome {
@@ -39,6 +46,8 @@ pub enum Outcome {
     TooSmall,
     TooLong,
     BadPtype,
+    /// a signalling PDU: encap_ext with the final mandatory extension 0x0081 (= its protocol type), fitting
+    Signalling,
 }
 
 #[derive(Clone, Copy, Debug, PartialEq, Eq)]
@@ -92,6 +101,8 @@ pub fn alphabet_c15() -> Vec<Op> {
     v.push(Op::Enc { label: 0, outcome: Outcome::TooLong, ext: false });
     v.push(Op::Enc { label: 0, outcome: Outcome::TooLong, ext: true });
     v.push(Op::Enc { label: 7, outcome: Outcome::Fits, ext: false });
+    v.push(Op::Enc { label: 8, outcome: Outcome::Fits, ext: false });
+    v.push(Op::Enc { label: 2, outcome: Outcome::Signalling, ext: true });
     v.extend([Op::Reset, Op::Disable, Op::Enable, Op::EnableMax(0), Op::EnableMax(1), Op::EnableMax(2), Op::EnableMax(255), Op::Accessors]);
     v
 }
@@ -118,6 +129,9 @@ pub fn alphabet_c04() -> Vec<Op> {
     v.push(Op::Enc { label: 0, outcome: Outcome::FragTail, ext: false });
     v.push(Op::Enc { label: 2, outcome: Outcome::FragTail, ext: false });
     v.push(Op::Enc { label: 1, outcome: Outcome::HeaderOnly, ext: false });
+    v.push(Op::Enc { label: 8, outcome: Outcome::Fits, ext: false });
+    v.push(Op::Enc { label: 1, outcome: Outcome::Signalling, ext: true });
+    v.push(Op::Enc { label: 4, outcome: Outcome::Signalling, ext: true });
     v.extend([Op::Cont, Op::ContStale, Op::Reset, Op::Disable, Op::Enable, Op::EnableMax(0), Op::EnableMax(1), Op::EnableMax(2), Op::Accessors]);
     v
 }
@@ -177,7 +191,8 @@ pub const M_C15: u32 = 2;
 
 impl Exec {
     pub fn new(with_rx: bool) -> Self {
-        let table = MandTable::none();
+        // the receiver uses the crate's signalisation table (knows 0x0081 / 0x0082 as final, data-less)
+        let table = MandTable::signalisation();
         Exec {
             enc: Encapsulator::new(DefaultCrc {}),
             dec: if with_rx { Some(plain_dec(4, 64, 6, 64, table.clone())) } else { None },
@@ -311,11 +326,15 @@ impl Exec {
                     Outcome::TooSmall => (small[..20].to_vec(), 3, 0x0800),
                     Outcome::TooLong => (LONG_PDU.with(|p| p.clone()), 64, 0x0800),
                     Outcome::BadPtype => (small[..20].to_vec(), 64, 0x0200),
+                    Outcome::Signalling => (small[..20].to_vec(), 64, 0x0081),
                 };
                 let frag_id = self.next_id % 4;
                 let mut buf = vec![0u8; blen];
                 let meta = EncapMetadata::new(ptype, l);
-                let r = if *ext {
+                let r = if *outcome == Outcome::Signalling {
+                    let e = vec![Extension::new(0x0081, &[]).unwrap()];
+                    guard(|| self.enc.encap_ext(&pdu, frag_id, meta, &mut buf, e))
+                } else if *ext {
                     let e = vec![Extension::new(0x0123, &[]).unwrap()];
                     guard(|| self.enc.encap_ext(&pdu, frag_id, meta, &mut buf, e))
                 } else {
@@ -353,7 +372,7 @@ impl Exec {
                         }
                         match self.carried {
                             None => rep.violation("C15", format!("substitution-without-predecessor:{}", cls), || format!("history [{}]: label {} replaced by re-use although the preceding start/complete packet of this frame carries no label (reset / broadcast / none)", hist(), label_str(&l)), replay),
-                            Some(c) if c != l => rep.violation("C15", format!("substitution-for-different-label:{}", cls), || format!("history [{}]: label {} replaced by re-use but the immediately preceding start/complete packet carried {}", hist(), label_str(&l), label_str(&c)), replay),
+                            Some(c) if !same_label(&c, &l) => rep.violation("C15", format!("substitution-for-different-label:{}", cls), || format!("history [{}]: label {} replaced by re-use but the immediately preceding start/complete packet carried {}", hist(), label_str(&l), label_str(&c)), replay),
                             _ => {}
                         }
                         if self.max_n > 0 && self.consecutive > self.max_n as u32 {
@@ -443,7 +462,7 @@ impl Exec {
                     if c04 {
                         match p.intended {
                             None => rep.violation("C04", format!("delivered-for-unresolvable-reuse:{}", kind.name()), || format!("history [{}]: the receiver attributed label {} to a PDU sent with an explicit re-use label that has no preceding start/complete packet in this frame (packet {})", hist(), label_str(&m.label()), hex_short(pkt, 32)), replay),
-                            Some(i) if i != m.label() => rep.violation("C04", format!("wrong-label:{}", kind.name()), || format!("history [{}]: the sender intended label {} but the receiver attributed the PDU to {} (packet {})", hist(), label_str(&i), label_str(&m.label()), hex_short(pkt, 32)), replay),
+                            Some(i) if !same_label(&i, &m.label()) => rep.violation("C04", format!("wrong-label:{}", kind.name()), || format!("history [{}]: the sender intended label {} but the receiver attributed the PDU to {} (packet {})", hist(), label_str(&i), label_str(&m.label()), hex_short(pkt, 32)), replay),
                             _ => {}
                         }
                     }
@@ -487,7 +506,7 @@ pub fn random_op(rng: &mut Rng, with_fail_kinds: bool) -> Op {
         6 => Op::ContStale,
         7 => Op::Accessors,
         _ => {
-            let label = [0u8, 0, 1, 2, 2, 3, 4, 5, 0, 2, 7][rng.below(11)];
+            let label = [0u8, 0, 1, 2, 2, 3, 4, 5, 0, 2, 7, 8, 8][rng.below(13)];
             let outcome = match rng.below(if with_fail_kinds { 14 } else { 11 }) {
                 0..=5 => Outcome::Fits,
                 6 | 7 => Outcome::Fragments,
@@ -498,6 +517,7 @@ pub fn random_op(rng: &mut Rng, with_fail_kinds: bool) -> Op {
                 12 => Outcome::BadPtype,
                 _ => Outcome::TooLong,
             };
+            let outcome = if rng.chance(1, 25) { Outcome::Signalling } else { outcome };
             Op::Enc { label, outcome, ext: rng.chance(1, 6) }
         }
     }
